@@ -58,6 +58,7 @@ type Party struct {
 	Tag      uint32
 	Queue    []*WireMsg // messages waiting to be delivered to this party
 	evs      []string
+	watch    map[int][]watched
 	w        *World
 	ErrMsg   bool
 	randSeen int
@@ -74,6 +75,13 @@ type Party struct {
 	// SMPRun identifies the SMP run the party takes part in (set when it starts one, or when
 	// the library reports that it accepted the peer's first message)
 	SMPRun int
+}
+
+// watched is a piece of the conversation's memory that held a secret when it was last looked at
+type watched struct {
+	mem   []byte
+	words bool
+	path  string
 }
 
 // World is two (or more) parties, the wire between them and the trace.
@@ -955,6 +963,70 @@ func (w *World) scan(p *Party, st M) (held, kept, dirty []int) {
 			if len(a) == 40 && bytes.Equal(a, s.X) {
 				dirty = append(dirty, s.ID)
 				break
+			}
+		}
+	}
+	// every piece of memory (byte buffer, big.Int word array) in which one of p's exponents is seen is
+	// remembered; once the exponent is not reachable any more, none of them may still hold it
+	if p.watch == nil {
+		p.watch = map[int][]watched{}
+	}
+	rev := func(b []byte) []byte {
+		o := make([]byte, len(b))
+		for i := range b {
+			o[len(b)-1-i] = b[i]
+		}
+		return o
+	}
+	holds := func(wt watched, s *Secret) bool {
+		view := wt.mem
+		if wt.words {
+			view = rev(wt.mem)
+		}
+		x := bytes.TrimLeft(s.X, "\x00")
+		return len(x) >= 8 && bytes.Contains(view, x)
+	}
+	otr3.VerifWalkAlias(p.Conv, func(path string, b []byte) {
+		if len(b) < 8 || strings.Contains(path, ".ourKeys") || strings.Contains(path, ".ourCurrentKey") {
+			return
+		}
+		wt := watched{mem: b, words: strings.HasSuffix(path, "#words"), path: path}
+		for _, s := range secs {
+			if !holds(wt, s) {
+				continue
+			}
+			known := false
+			for _, o := range p.watch[s.ID] {
+				if &o.mem[0] == &b[0] {
+					known = true
+				}
+			}
+			if !known {
+				p.watch[s.ID] = append(p.watch[s.ID], wt)
+			}
+		}
+	})
+	heldSet := map[int]bool{}
+	for _, id := range held {
+		heldSet[id] = true
+	}
+	for _, s := range secs {
+		if heldSet[s.ID] {
+			continue
+		}
+		already := false
+		for _, d := range dirty {
+			if d == s.ID {
+				already = true
+			}
+		}
+		for _, wt := range p.watch[s.ID] {
+			if !already && holds(wt, s) {
+				if os.Getenv("VERIF_SCANDEBUG") != "" {
+					fmt.Fprintf(os.Stderr, "scan: exponent %d dropped but still in the memory once at %s\n", s.ID, wt.path)
+				}
+				dirty = append(dirty, s.ID)
+				already = true
 			}
 		}
 	}
